@@ -153,7 +153,7 @@ func enumerate(tier string) []scase {
 						}
 						reps := 1
 						if pos == "simultaneous" || pos == "context-cancelled-simultaneous" {
-							reps = 25
+							reps = 60
 							if tier == "thorough" {
 								reps = 300
 							}
